@@ -623,4 +623,27 @@ def timeLex : Str → Option GVal
       else none
   | _ => none
 
+/-! ## xs:language: XSD 1.1 Part 2, 3.4.3 — "[a-zA-Z]{1,8}(-[a-zA-Z0-9]{1,8})*": one to eight letters, then
+any number of sub-tags of one to eight letters or digits, separated by single hyphens.  Written by splitting
+at the hyphens. -/
+
+/-- the pieces between the hyphens (always at least one piece) -/
+def splitDash : Str → List Str
+  | [] => [[]]
+  | c :: r =>
+    if c == '-' then [] :: splitDash r
+    else match splitDash r with
+      | p :: ps => (c :: p) :: ps
+      | [] => [[c]]
+
+def isLetter (c : Char) : Bool := ('a' ≤ c && c ≤ 'z') || ('A' ≤ c && c ≤ 'Z')
+
+def primaryTag (p : Str) : Bool := decide (1 ≤ p.length) && decide (p.length ≤ 8) && p.all isLetter
+def subTag (p : Str) : Bool := decide (1 ≤ p.length) && decide (p.length ≤ 8) && p.all (fun c => isLetter c || isDigit c)
+
+def languageLex (s : Str) : Bool :=
+  match splitDash s with
+  | p :: ps => primaryTag p && ps.all subTag
+  | [] => false
+
 end EPV.XSD
